@@ -1061,8 +1061,11 @@ def sweep_decks(res, tier, rng):
                    f'{totals.get("joined", 0)} points joined with GEOMCOMP, '
                    f'{totals.get("nested", 0)} in nested universes, '
                    f'{totals.get("lattice-own", 0)} in lattice elements of '
-                   'the lattice\'s own universe)',
-                   totals.get('joined', 0) > 0 and totals.get('nested', 0) > 0,
+                   f'the lattice\'s own universe, {totals.get("like", 0)} in '
+                   f'LIKE n BUT cells, {totals.get("like-chain", 0)} of them '
+                   'LIKE a LIKE cell)',
+                   totals.get('joined', 0) > 0 and totals.get('nested', 0) > 0
+                   and totals.get('like-chain', 0) > 0,
                    'no point could be joined' if not totals.get('joined')
                    else '')
     return real
